@@ -9,9 +9,11 @@
                 accumulation loops); TLC checks Impl = Prop on every enumerated table.
    Generator  : all consistent tables for N <= MaxN samples, per query family, exported with
                 the expected answer of every query for every sample number / interval / time. *)
-EXTENDS SampleTablesOps, TLC, Json
+EXTENDS SampleTablesOps, TLC, Json, SequencesExt
 
-CONSTANTS Family, MaxN, DoExport
+CONSTANTS Family, MaxN, DoExport,
+          Scales      \* time family: every table is also replayed with all durations multiplied by k \in Scales - all times then
+                      \* scale by k (the per-sample expansion is linear), which takes decode times beyond 2^32 ticks for k = 2^30
 
 (* --------------------------------------------------------------- generator *)
 Ns == 1 .. MaxN
@@ -103,5 +105,6 @@ ImplChunk == (Family = "chunk" /\ phase = "answered") =>
 Export == (DoExport /\ phase = "answered") =>
     PrintT(ToJson([family |-> Family, n |-> N,
                    tab |-> IF Family = "meta" THEN [stts |-> tab.stts, ctts |-> tab.ctts, sdtp |-> tab.sdtp] ELSE tab,
+                   scales |-> IF Family = "time" THEN SetToSeq(Scales) ELSE <<1>>,
                    res |-> res]))
 =============================================================================
